@@ -385,6 +385,11 @@ def task_add_segment(I):
                     s1, d1 = mk(I, 'a', m1, e1)
                     s2, d2 = mk(I, 'b', m2, e2)
                     st.update(s1=s1, s2=s2, d1=d1, d2=d2, segs=segs, e1=e1, e2=e2)
+                    # an earlier part of another class comes first: whatever happens to the last two parts, it (and its entry in `modes`) must stay
+                    m0 = 'hanzi' if m1 != 'hanzi' else 'kanji'
+                    s0, d0 = mk(I, 'z', m0, None)
+                    st['s0'] = s0
+                    I.call_function(f, (segs, s0), {})
                     I.call_function(f, (segs, s1), {})
                     I.call_function(f, (segs, s2), {})
                     return segs
@@ -398,7 +403,9 @@ def task_add_segment(I):
                     md = segs.attrs['modes']
                     bl = segs.attrs['bit_length']
                     I.ground('C01.add_segment.modes_mirror_segments', list(md) == [s.items[2] for s in lst], witness=repr(md))
-                    tot = 0
+                    I.ground('C01.add_segment.earlier_parts_untouched', len(lst) >= 2 and lst[0] is st['s0'], witness=len(lst))
+                    lst = lst[1:]
+                    tot = st['s0'].items[0].bitlen
                     for s in lst:
                         tot = tot + s.items[0].bitlen
                     I.oblige('C01.add_segment.bit_length_is_sum_of_payload_bits', bl == tot)
